@@ -141,20 +141,54 @@ def extends_across_variants(tag):
     bad = []
     n = 0
     results = {}
-    for vname, kw in (('plain parent', {}), ('include_source parent', {'include_source': True})):
+    for vname, kw in (('plain parent', {}), ('include_source parent', {'include_source': True}),
+                      ('emitted source of the parent executed as a module', {'include_source': True, 'exec': True})):
         pname = f'c11p_{tag}_{len(results)}'
         try:
-            realrun.compile_grammar(f'grammar {pname}\nstart = [A+, B?]\nA = "a"\nB = "b"\n', **kw)
+            do_exec = kw.pop('exec', False)
+            pmod, _ = realrun.compile_grammar(f'grammar {pname}\nstart = [A+, B?]\nA = "a"\nB = "b"\n', **kw)
+            if do_exec:
+                # the emitted source, run on its own under another module name, must serve as a parent just as well
+                import types
+                pname = pname + '_exec'
+                m = types.ModuleType(pname)
+                exec(compile(pmod._source_code, f'<{pname}>', 'exec'), m.__dict__)
+                sys.modules[pname] = m
             child, _ = realrun.compile_grammar(f'grammar c11c_{tag}_{len(results)} extends {pname}\noverride A = "x" | super.A\n')
             res = [realrun.run_real_api(child.parse, t, 0, True)[0] for t in ('xa', 'ab', 'xxb', 'b', '')]
         except Exception as exc:       # noqa: BLE001
             res = [('X-compile', type(exc).__name__, str(exc)[:80])]
         n += 5
         results[vname] = res
-    if results['plain parent'] != results['include_source parent']:
-        bad.append({'key': 'extends-variants', 'sig': 'extends-variants', 'kind': 'spec',
-                    'what': f'a child of a parent compiled without include_source behaves differently from a child of the same parent '
-                            f'compiled with it: {str(results["plain parent"])[:160]} vs {str(results["include_source parent"])[:160]}'})
+    for vname, res in results.items():
+        if res != results['plain parent']:
+            bad.append({'key': f'extends-variants|{vname}', 'sig': 'extends-variants', 'kind': 'spec',
+                        'what': f'a child behaves differently when its parent is the variant "{vname}": {str(res)[:160]} '
+                                f'vs {str(results["plain parent"])[:160]} for a plainly compiled parent'})
+    # entry points of rules, classes and classes with parameters, in every variant
+    text = 'start = Pair(Name, Int) // ";"\nclass Pair(a, b) { first: a; second: "&" >> b }\nName = /[a-z]+/\nInt = /[0-9]+/ |> `int`\nclass Tag { name: Name }\n'
+    per_variant = {}
+    for vname, vtext, kw in variants_of(text, f'{tag}_entry'):
+        try:
+            mod, _ = realrun.compile_grammar(vtext, **kw)
+            calls = [('Name', lambda m: m.Name.parse), ('Tag', lambda m: m.Tag.parse), ('Int', lambda m: m.Int.parse),
+                     ('Pair(Name, Int)', lambda m: m.Pair.parse(m.Name, m.Int)), ('Pair("x", "y")', lambda m: m.Pair.parse('x', 'y'))]
+            res = []
+            for cname, get in calls:
+                for t in ('ab&12', 'ab', 'x&y', '12', ''):
+                    try:
+                        res.append((cname, t, realrun.run_real_api(get(mod), t, 0, True)[0]))
+                    except Exception as exc:       # noqa: BLE001
+                        res.append((cname, t, ('X-entry', type(exc).__name__)))
+                    n += 1
+        except Exception as exc:       # noqa: BLE001
+            res = [('X-compile', type(exc).__name__)]
+        per_variant[vname] = res
+    for vname, res in per_variant.items():
+        if res != per_variant['unnamed']:
+            k = next((i for i in range(min(len(res), len(per_variant['unnamed']))) if res[i] != per_variant['unnamed'][i]), 0)
+            bad.append({'key': f'entry-points|{vname}', 'sig': 'entry-points', 'kind': 'spec',
+                        'what': f'entry point in variant "{vname}": {str(res[k])[:160]} vs {str(per_variant["unnamed"][k])[:160]} in the plain module'})
     return n, bad
 
 
